@@ -437,8 +437,8 @@ func TestCheck(t *testing.T) {
 	if r.RunShards(16) { // bubble-heavy: one process per shard of the exploration
 		return
 	}
-	nBlocks := vf.Pick(r, 3, 4)
-	horizon := vf.Pick(r, 16, 20)
+	nBlocks := vf.Pick(r, 2, 3)
+	horizon := vf.Pick(r, 12, 16)
 	budgets := vf.Pick(r, map[string]int{"da": 2, "crash": 1}, map[string]int{"da": 3, "crash": 2})
 	r.Assume = []string{
 		"virtual time (testing/synctest): DA block time 1 s, mempool TTL 2 DA blocks; the two submission loops are started 1 ms apart (both orders explored) so that their timers never coincide",
